@@ -32,7 +32,8 @@ CLAIMED = {
             BASE_NOTE + " Token view of io assumed. gzip is a TRUSTED inverse pair (UnZip(DoZip(b)) has b's bytes). The type-tag framing inside WritePack/ReadPack is abstracted by the composite token (rests on the factory harness). "
             "The packs whose tables are hmap linked maps (EventPack, ParamPack, ExtensionPack, StatRemoteIpPack, StatUserAgentPack) are verified over the TRUSTED insertion-ordered dictionary model of lang/value (namespace hmapv), with the stated size preconditions (EventPack <= 251 own attributes, no reserved keys; StatRemoteIp/UserAgent within their eviction bound). "
             "SMDiskPerf/SMNetPerf/SMProcPerf/SMLogEvent list packs over an uninterpreted record equality justified by each record's own harness; TransactionRec for all record versions with nil tables; ProfilePack over TxRecord's C08 contracts. "
-            "Not under contract: CounterPack1's round trip (its writer layout is C05's), ProcPerf's own record harness, SMBasePack, the raw-tag-bytes branch of TagCountPack/TagLogPack/LogSinkPack.Write (C05 covers the writer side), StatGeneralPack.writeTable, Stat*Pack.SetRecords over hmap enumerations. Nine genuine deviations are known findings (ServerInfoPack, SMExtension, 16-bit hit counters, constant Count slots, EventPack count byte).",
+            "Stat*Pack record lists over container/list (trusted append-only list model): the real SetRecordsList then the real GetRecords return every record, any count 0..65535 (StatSqlPack, StatHttpcPack; the two transaction packs verify but are too slow to be claimed). "
+            "Not under contract: CounterPack1's round trip (its writer layout is C05's), ProcPerf's own record harness, SMBasePack (a seeded change there is not caught), the raw-tag-bytes branch of TagCountPack/TagLogPack/LogSinkPack.Write (C05 covers the writer side), StatGeneralPack.writeTable, Stat*Pack.SetRecords over hmap enumerations. Ten genuine deviations are known findings (ServerInfoPack, SMExtension, 16-bit hit counters, constant Count slots, EventPack count byte, unbounded 16-bit record count).",
             TECH),
     "C04": ("proof",
             "No fabrication: every io Read* that returns normally consumed bytes that were present (postcondition of ReadBytes and of every reader built on it, byte-level contracts); "
